@@ -120,6 +120,12 @@ func init() {
 		mirrorOps[op] = "gen." + op
 		execs["gen."+op] = func(a []string) string { return execs[op](a) }
 	}
+	// pkg/bech32/address (stage 11): ParseBech32 / Bech32 answered by the generated code, same reply format
+	for _, op := range []string{"addr.parse", "addr.enc"} {
+		op := op
+		mirrorOps[op] = "gen." + op
+		execs["gen."+op] = func(a []string) string { return execs[op](a) }
+	}
 	// secp256k1 (stage 10): the ops of the C17 stream are also answered by the generated Add / Double / ScalarMult /
 	// ScalarBaseMult / IsOnCurve
 	for _, op := range []string{"secp.add", "secp.double", "secp.mul", "secp.basemul", "secp.oncurve"} {
